@@ -89,6 +89,25 @@ Proof.
   cbn [method_name]. apply index_of_spec in E. destruct E as [_ E]. now rewrite Nat.sub_0_r in E.
 Qed.
 
+(* parsing the printed token gives the method back, whatever follows that is not a token character *)
+Lemma method_parse_print tok rest :
+  tok <> [] -> forallb is_token_char tok = true -> stops is_token_char rest ->
+  method_parse (method_name (method_of tok) ++ rest) = Some (method_of tok, rest).
+Proof.
+  intros Hn Ht Hr. rewrite method_name_of. unfold method_parse.
+  rewrite (take_while_app _ _ _ Ht Hr). destruct tok; [now elim Hn | reflexivity].
+Qed.
+
+(* a token is never cut: whatever is parsed is the longest run of token characters, classified as a whole *)
+Lemma method_parse_whole s m rest :
+  method_parse s = Some (m, rest) ->
+  exists tok, s = tok ++ rest /\ tok <> [] /\ forallb is_token_char tok = true /\ stops is_token_char rest /\ m = method_of tok.
+Proof.
+  unfold method_parse. destruct (take_while is_token_char s) as [a b] eqn:E. intros H.
+  destruct a as [|c a]; [discriminate|]. injection H as <- <-.
+  apply take_while_spec in E. destruct E as (-> & Ha & Hb). exists (c :: a). repeat split; auto. discriminate.
+Qed.
+
 Lemma index_of_nth l : NoDup l -> forall i k, i < length l -> index_of (nth i l []) l k = Some (k + i).
 Proof.
   induction l as [|x r IH]; intros Hnd i k Hi; [cbn in Hi; lia|]. inversion Hnd as [|? ? Hni Hr]; subst.
